@@ -55,13 +55,19 @@ def abstract_texts(model):
     parent = 'I0' if model['parent'] == 'interface' else 'U0'
     lines = ['schema { query: Query }', f'type Query {{ n: {parent} }}', 'interface I0 { leaf: Int }']
     for o in range(2):
-        lines.append(f'type {ON[o]}{" implements I0" if impl[o] else ""} {{ leaf: Int f1: Int f2: Int }}')
+        lines.append(f'type {ON[o]}{" implements I0" if impl[o] else ""} {{ leaf: Int f1: Int f2: Int next: {ON[o]} }}')
     members = [ON[o] for o in range(2) if memb[o]] or [ON[0]]
     lines.append('union U0 = ' + ' | '.join(members))
     schema = '\n'.join(lines) + '\n'
     on = {'O0': ON[0], 'O1': ON[1], 'PARENT': parent}
     frag_field = lambda k, t: ('__typename' if t == 'U0' else ('leaf' if t == 'I0' else f'f{k}'))
-    frags = [f"fragment F{k} on {on[model[f'F{k}_on']]} {{ {frag_field(k, on[model[f'F{k}_on']])} }}" for k in (1, 2)]
+    def frag_body(k):
+        t = on[model[f'F{k}_on']]
+        body = frag_field(k, t)
+        if k == 1 and model.get('recursive_f1') and t in ON:
+            body += ' next { ...F1 }'          # F1 spreads itself through an object field
+        return body
+    frags = [f"fragment F{k} on {on[model[f'F{k}_on']]} {{ {frag_body(k)} }}" for k in (1, 2)]
     sels = [s_.replace('... on O0', '... on ' + ON[0]).replace('... on O1', '... on ' + ON[1]) for s_ in model['selections']]
     query = 'query Q { n { ' + ' '.join(sels) + ' } }\n' + '\n'.join(frags) + '\n'
     # one payload per possible object type carrying every field the operation can select on it
@@ -126,3 +132,32 @@ def object_texts(model):
     query = 'query Q { n { ' + text + ' } }\n' + '\n'.join(used) + '\n'
     payload = {'n': {'__typename': ON[0], 'leaf': 1, 'g1': 4, 'g2': 5, 'f1': 2, 'f2': 3, 'sub': {'leaf': 9}}}
     return schema, query, payload, keys
+
+
+def abstract_recursive_texts(model):
+    """the recursive-F1 scenario of kernels.k_abstract_selection rendered so that the cycle is real: F1 (on an object type)
+    has a field of the abstract type whose selection set is the model's selection list, in which F1 is spread again:
+        fragment F1 on O { f1 nexta { <selections incl. ...F1> } }
+    Returns (schema, query) or None when the model does not spread F1 / F1 is not on an object type."""
+    ON = model.get('obj_names') or ['O0', 'O1']
+    on = {'O0': ON[0], 'O1': ON[1]}
+    if model['F1_on'] not in on or '...F1' not in model['selections']:
+        return None
+    impl, memb = model['implements'], model['members']
+    parent = 'I0' if model['parent'] == 'interface' else 'U0'
+    lines = ['schema { query: Query }', f'type Query {{ start: {on[model["F1_on"]]} }}', 'interface I0 { leaf: Int }']
+    for o in range(2):
+        lines.append(f'type {ON[o]}{" implements I0" if impl[o] else ""} {{ leaf: Int f1: Int f2: Int nexta: {parent} }}')
+    members = [ON[o] for o in range(2) if memb[o]] or [ON[0]]
+    lines.append('union U0 = ' + ' | '.join(members))
+    schema = '\n'.join(lines) + '\n'
+    sels = [s_.replace('... on O0', '... on ' + ON[0]).replace('... on O1', '... on ' + ON[1]) for s_ in model['selections']]
+    if parent == 'U0':
+        sels = [s_ for s_ in sels if s_ != 'leaf']
+    f2_on = {'O0': ON[0], 'O1': ON[1], 'PARENT': parent}[model['F2_on']]
+    f2_body = '__typename' if f2_on == 'U0' else ('__typename leaf' if f2_on == 'I0' else 'f2')
+    frags = [f'fragment F1 on {on[model["F1_on"]]} {{ f1 nexta {{ {" ".join(sels)} }} }}']
+    if '...F2' in model['selections']:
+        frags.append(f'fragment F2 on {f2_on} {{ {f2_body} }}')
+    query = 'query Q { start { ...F1 } }\n' + '\n'.join(frags) + '\n'
+    return schema, query
